@@ -83,6 +83,44 @@ proof fn lemma_update_open_depth(s: Seq<Event>, i: int, e: Event)
     else { assert(t.drop_last() =~= s.drop_last().update(i, e)); lemma_update_open_depth(s.drop_last(), i, e); }
 }
 
+// every non-empty proper prefix has depth >= 1: the first event opens the root node and nothing leaves it before the
+// last event.  This is what lets the tree builder hand rowan exactly one root with every token inside it.
+#[verifier::opaque]
+spec fn rooted(s: Seq<Event>) -> bool {
+    forall|j: int| 1 <= j < s.len() ==> depth(#[trigger] s.take(j)) >= 1
+}
+// "inside the root": where every grammar function except `module` runs
+spec fn inroot(s: Seq<Event>) -> bool { s.len() >= 1 && depth(s) >= 1 }
+proof fn lemma_rooted_push(s: Seq<Event>, e: Event)
+    requires rooted(s), s.len() == 0 || depth(s) >= 1
+    ensures rooted(s.push(e))
+{ reveal(rooted);
+    let t = s.push(e);
+    assert forall|j: int| 1 <= j < t.len() implies depth(#[trigger] t.take(j)) >= 1 by {
+        if j == s.len() { assert(t.take(j) =~= s); } else { assert(t.take(j) =~= s.take(j)); }
+    }
+}
+proof fn lemma_rooted_insert_open(s: Seq<Event>, i: int, e: Event)
+    requires rooted(s), 1 <= i <= s.len(), e is Open, depth(s) >= 1
+    ensures rooted(s.insert(i, e))
+{ reveal(rooted);
+    let t = s.insert(i, e);
+    assert forall|j: int| 1 <= j < t.len() implies depth(#[trigger] t.take(j)) >= 1 by {
+        if j <= i { assert(t.take(j) =~= s.take(j)); if j == s.len() { assert(s.take(j) =~= s); } }
+        else { assert(t.take(j) =~= s.take(j - 1).insert(i, e)); lemma_insert(s.take(j - 1), i, e); if j - 1 == s.len() { assert(s.take(j - 1) =~= s); } }
+    }
+}
+proof fn lemma_rooted_update_open(s: Seq<Event>, i: int, e: Event)
+    requires rooted(s), 0 <= i < s.len(), s[i] is Open, e is Open
+    ensures rooted(s.update(i, e))
+{ reveal(rooted);
+    let t = s.update(i, e);
+    assert forall|j: int| 1 <= j < t.len() implies depth(#[trigger] t.take(j)) >= 1 by {
+        if j <= i { assert(t.take(j) =~= s.take(j)); }
+        else { assert(t.take(j) =~= s.take(j).update(i, e)); lemma_update_open_depth(s.take(j), i, e); }
+    }
+}
+
 impl<'i> Parser<'i> {
     spec fn kind_at(&self, i: int) -> SyntaxKind {
         if 0 <= i < self.tokens@.len() { self.tokens@[i].kind } else { SyntaxKind::EOF }
@@ -97,19 +135,26 @@ impl<'i> Parser<'i> {
         &&& self.depth <= MAX_DEPTH
         &&& self.fuel <= FUEL
     }
-    spec fn wf_ev(&self) -> bool {
+    // wf_ev0: the event discipline proper; wf_ev additionally says "inside the root node", which holds everywhere
+    // except at the entry and exit of `module`
+    spec fn wf_ev0(&self) -> bool {
         &&& n_adv(self.events@) == self.pos
         &&& nested(self.events@)
         &&& depth(self.events@) >= 0
+        &&& rooted(self.events@)
     }
+    spec fn wf_ev(&self) -> bool { self.wf_ev0() && inroot(self.events@) }
     spec fn wf(&self) -> bool { self.wf_tok() && self.wf_ev() }
+    spec fn wf0(&self) -> bool { self.wf_tok() && self.wf_ev0() }
 }
 // frame: what every grammar function leaves alone
 spec fn is_open(s: Seq<Event>, i: int) -> bool { 0 <= i < s.len() && s[i] is Open }
 spec fn ext(o: Parser, n: Parser) -> bool { extd(o, n, 0) }
 // ... with the nesting counter changed by dd (only Parser::enter / Parser::leave have dd != 0)
-spec fn extd(o: Parser, n: Parser, dd: int) -> bool {
-    &&& n.wf()
+spec fn extd(o: Parser, n: Parser, dd: int) -> bool { extd0(o, n, dd) && inroot(n.events@) }
+spec fn ext0(o: Parser, n: Parser) -> bool { extd0(o, n, 0) }
+spec fn extd0(o: Parser, n: Parser, dd: int) -> bool {
+    &&& n.wf0()
     &&& n.depth == o.depth + dd
     &&& n.tokens@ == o.tokens@
     &&& n.tokens_raw@ == o.tokens_raw@
@@ -173,13 +218,15 @@ spec fn fuel_ok(o: Parser, n: Parser, pre: int, a: int) -> bool {
 
 // ---------- abbreviations used by contracts/parser.spec ----------
 // frame + depth change d  (d = 0: balanced; d = -1: finishes a node it was handed; d = +1: inside a loop under one open node)
-spec fn lp(o: Parser, n: Parser, d: int) -> bool { ext(o, n) && depth(n.events@) == depth(o.events@) + d }
+// (o is inside the root: every function that states lp starts there, and marks it creates have index >= 1)
+spec fn lp(o: Parser, n: Parser, d: int) -> bool { ext(o, n) && depth(n.events@) == depth(o.events@) + d && o.events@.len() >= 1 }
 // progress: at least one token consumed
 spec fn prog(o: Parser, n: Parser) -> bool { n.pos > o.pos }
 // a returned MarkClosed lies in the part of the event list this call appended
 spec fn mark_ok(o: Parser, n: Parser, r: MarkClosed) -> bool { r.index >= o.events@.len() && r.index <= n.events@.len() }
 // a MarkOpened handed to a function that has to finish it
-spec fn handed(p: Parser, m: MarkOpened) -> bool { p.wf() && open_at(p, m) && depth(p.events@) >= 1 }
+// (depth >= 2: its own node and the root, so that finishing the mark stays inside the root)
+spec fn handed(p: Parser, m: MarkOpened) -> bool { p.wf() && open_at(p, m) && depth(p.events@) >= 2 }
 spec fn open_at(p: Parser, m: MarkOpened) -> bool { is_open(p.events@, m.index as int) }
 // generated by the extractor from the code's own constants (R4), shown for two of them:
 // spec fn TYPE_FIRST_spec(k) = k == FN_KW || k == HASH || k == IDENT || k == U_IDENT || k == DISCARD_IDENT
